@@ -333,8 +333,8 @@ class Pipeline:
             coll = st(coll)
         return coll
 
-    def reference(self, model_source, drain=False, distinct_same=M.eq):
-        return M.run_pipeline(self.mstages, model_source, drain=drain, distinct_same=distinct_same)
+    def reference(self, model_source, drain=False, distinct_same=M.eq, push=False):
+        return M.run_pipeline(self.mstages, model_source, drain=drain, distinct_same=distinct_same, push=push)
 
 
 # --------------------------------------------------------------------------- enumeration
@@ -498,6 +498,20 @@ def explain(cx, P, obs, model_vals_factory):
     return None
 
 
+EXPLAINED_LISTED_PER_SHARD = 150
+
+
+def _list_explained(res, tag):
+    """Failures explained by a known finding are listed up to a cap per shard and counted beyond it, so that they can
+    never push an unexplained failure out of the (bounded) failure list."""
+    res.part("explained_failures", **{tag: 1})
+    n = res.parts["explained_failures"][tag]
+    if n > EXPLAINED_LISTED_PER_SHARD:
+        res.part("explained_failures", counted_but_not_listed=1)
+        return False
+    return True
+
+
 def case_dict(P, inp, level, kind, form):
     return {
         "pipeline": [list(x) for x in P.pipe],
@@ -544,6 +558,8 @@ def check_finite(cx, res, P, level, texts, kinds, forms=FORMS, only=None):
                 ex = explain(cx, P, obs, lambda: mvals) if kindname == "elements-differ" else None
                 if ex:
                     det["explained_by"] = ex
+                    if not _list_explained(res, ex):
+                        continue
                 res.fail(kindname, case_dict(P, texts, level, kind, form), **det)
     res.part("finite", cases=1, early_termination_cases=1 if early else 0)
     if len(res.samples) < 3 and len(texts) == 3 and len(P.pipe) == 2 and early:
@@ -564,11 +580,23 @@ def check_infinite(cx, res, P, level, name, forms=FORMS, only=None):
     except BudgetExceeded:
         res.part("infinite", skipped_reference_does_not_terminate=1)
         return
+    # run as a transducer, (take 0) can only stop the process when an input reaches it: if none ever does, no
+    # implementation of the transducer forms can terminate -> only the lazy form is judged on such a case
+    xf_ok = True
+    if any(n == "take" and p <= 0 for n, p in P.mstages):
+        try:
+            for _ in P.reference(Source(model(), budget=REF_PULL_LIMIT), push=True):
+                pass
+        except BudgetExceeded:
+            xf_ok = False
+            res.part("infinite", transducer_forms_skipped_take0_never_reached=1)
     res.distinct_count += 1
     res.outcomes.add(name + " " + " ".join(exp))
     rec = cx.rec
     for form in forms:
         if only and ("inf", form) != only:
+            continue
+        if form != "lazy" and not xf_ok:
             continue
         src = Source(real(), budget=IMPL_PULL_BUDGET)
         coll = cx.lseq.iterator_sequence(src)
@@ -583,6 +611,8 @@ def check_infinite(cx, res, P, level, name, forms=FORMS, only=None):
             ex = explain(cx, P, obs, lambda: Source(model(), budget=REF_PULL_LIMIT)) if kindname == "elements-differ" else None
             if ex:
                 det["explained_by"] = ex
+                if not _list_explained(res, ex):
+                    continue
             res.fail(kindname, case_dict(P, "inf:" + name, level, "inf", form), **det)
     res.part("infinite", cases=1)
     if len(res.samples) < 5 and len(P.pipe) == 2 and len(exp) >= 2:
